@@ -46,32 +46,51 @@ def valueOkG (f : PFlagG) (v : Str) : Bool :=
     | .stringSlice | .stringArray | .string | .optString => true
     | _ => valueOk f.toPFlag v
 
-def parseLongG (fs : PFlagsG) (body : Str) (rest : List Str) : Except Err ((Str × Str) × Nat) :=
+/-- `stripUnknownFlagValue`: a whitelisted unknown flag takes the next word along unless that word starts with `-` -/
+def stripUnknown (rest : List Str) : Nat :=
+  match rest with
+  | [] => 0
+  | w :: _ => if Str.hasPrefix w ['-'] then 0 else 1
+
+/-- `wl` = `ParseErrorsWhitelist.UnknownFlags` (cobra's `FParseErrWhitelist`); an assignment is `none`
+    for a tolerated unknown flag -/
+def parseLongG (fs : PFlagsG) (wl : Bool) (body : Str) (rest : List Str) : Except Err (Option (Str × Str) × Nat) :=
   match body with
   | [] => .error .badSyntax
   | c :: _ =>
     if c = '-' ∨ c = '=' then .error .badSyntax else
     match findLongG fs body with
-    | none => if body == "help".toList then .error .help else .error .unknownLong
+    | none =>
+      if body == "help".toList then .error .help
+      else if wl then .ok (none, if body.elem '=' then 0 else stripUnknown rest)
+      else .error .unknownLong
     | some f =>
       match (Str.cutChar f.delim body).2 with
-      | some v => if valueOkG f v then .ok ((f.name, v), 0) else .error .badValue
+      | some v => if valueOkG f v then .ok (some (f.name, v), 0) else .error .badValue
       | none =>
         match f.noOptDefVal with
-        | some d => .ok ((f.name, d), 0)
+        | some d => .ok (some (f.name, d), 0)
         | none =>
           if rest.isEmpty then .error .needsArg
           else
             let v := nargsValue f.nargs rest
-            if valueOkG f v then .ok ((f.name, v), takeNargs f.nargs rest) else .error .badValue
+            if valueOkG f v then .ok (some (f.name, v), takeNargs f.nargs rest) else .error .badValue
 
 /-- `parseShortArg` (POSIX): `-f=arg` is recognised by a literal `=`, but the value is then cut at the
     letter's own delimiter - `SplitN(..)[1]` panics when that character does not occur -/
-def parseShortG (fs : PFlagsG) : Str → List Str → Except Err (List (Str × Str) × Nat)
+def parseShortG (fs : PFlagsG) (wl : Bool) : Str → List Str → Except Err (List (Str × Str) × Nat)
   | [], _ => .ok ([], 0)
   | c :: more, rest =>
     match findShortG fs c with
-    | none => if c = 'h' then .error .help else .error .unknownShort
+    | none =>
+      if c = 'h' then .error .help
+      else if wl then
+        -- `-x=...`: the rest of the word is dropped; otherwise the letters go on, and only the last
+        -- letter of the word decides about the next word
+        (if Str.hasPrefix more ['='] then .ok ([], 0)
+         else if more.isEmpty then .ok ([], stripUnknown rest)
+         else parseShortG fs wl more rest)
+      else .error .unknownShort
     | some f =>
       match eqValue more with
       | some _ =>
@@ -81,7 +100,7 @@ def parseShortG (fs : PFlagsG) : Str → List Str → Except Err (List (Str × S
       | none =>
         match f.noOptDefVal with
         | some dv =>
-          match parseShortG fs more rest with
+          match parseShortG fs wl more rest with
           | .ok (ms, took) => .ok ((f.name, dv) :: ms, took)
           | .error e => .error e
         | none =>
@@ -94,25 +113,25 @@ def parseShortG (fs : PFlagsG) : Str → List Str → Except Err (List (Str × S
               if valueOkG f v then .ok ([(f.name, v)], takeNargs f.nargs rest) else .error .badValue
 
 /-- `parseArgs`; `skip` = how many words at the head were taken by the flag before them -/
-def parseArgsG (fs : PFlagsG) (interspersed : Bool) : List Str → Nat → Parsed → Except Err Parsed
+def parseArgsG (fs : PFlagsG) (wl interspersed : Bool) : List Str → Nat → Parsed → Except Err Parsed
   | [], _, p => .ok p
-  | _ :: rest, k + 1, p => parseArgsG fs interspersed rest k p
+  | _ :: rest, k + 1, p => parseArgsG fs wl interspersed rest k p
   | s :: rest, 0, p =>
     match wordKind s with
     | .dash => .ok { p with lenAtDash := some p.args.length, args := p.args ++ rest }
     | .long body =>
-      match parseLongG fs body rest with
+      match parseLongG fs wl body rest with
       | .error e => .error e
-      | .ok (a, took) => parseArgsG fs interspersed rest took { p with sets := p.sets ++ [a] }
+      | .ok (a, took) => parseArgsG fs wl interspersed rest took { p with sets := p.sets ++ a.toList }
     | .short cs =>
-      match parseShortG fs cs rest with
+      match parseShortG fs wl cs rest with
       | .error e => .error e
-      | .ok (as, took) => parseArgsG fs interspersed rest took { p with sets := p.sets ++ as }
+      | .ok (as, took) => parseArgsG fs wl interspersed rest took { p with sets := p.sets ++ as }
     | .pos =>
-      if interspersed then parseArgsG fs interspersed rest 0 { p with args := p.args ++ [s] }
+      if interspersed then parseArgsG fs wl interspersed rest 0 { p with args := p.args ++ [s] }
       else .ok { p with args := p.args ++ s :: rest }
 
-def parseG (fs : PFlagsG) (interspersed : Bool) (args : List Str) : Except Err Parsed :=
-  parseArgsG fs interspersed args 0 {}
+def parseG (fs : PFlagsG) (interspersed : Bool) (args : List Str) (wl : Bool := false) : Except Err Parsed :=
+  parseArgsG fs wl interspersed args 0 {}
 
 end Carapace.Spec.PflagG
